@@ -56,6 +56,14 @@ def register(reg):
     # ---- _process_recursive
     k = reg.contract("_processor:Processor._process_recursive", properties=P, modifies=("BaseRelation.payload",),
                      result_td=smt.TTupleT([TRel, smt.TBool]))
+    def arms(c):
+        t = smt.typ(c.original.z)
+        tr, ma = t == cid(c, "Transfer"), t == cid(c, "Materialization")
+        mk = z3.And(is_marker(c, c.original.z), z3.Not(tr), z3.Not(ma))
+        un, bi = t == cid(c, "UnaryOperationRelation"), t == cid(c, "BinaryOperationRelation")
+        return [("transfer", tr), ("materialization", ma), ("marker", mk), ("unary", un), ("binary", bi), ("leaf", z3.Not(z3.Or(tr, ma, mk, un, bi)))]
+
+    k.split = arms
     k.req("payloads-hold-their-relations-rows", lambda c: B(payload_inv(c, payload_heap(c))))
     k.req("relation-columns-truthful", lambda c: B(truthful_cols(c, c.original.z)))
     lf = z3.Const("lf", smt.Ref)
